@@ -389,6 +389,136 @@ theorem grid_from_data_length_mislabels_supplied_transform :
       (trueOneSided 1000 256)[40]? = some (625 / 4) ∧ (trueOneSided 1000 100)[40]? = some 400 := by
   decide +kernel
 
+/-! ### the frequency vector has ONE ENTRY PER SPECTRAL VALUE it accompanies (length and spacing of the transform really used)
+
+Per generated site: the number of frequencies is the number of bins of the transform the values are read from, for every
+combination of samples / `N=` / `NFFT=` / `Sk=` — in particular a multitaper estimator asked for FEWER points than samples
+(`tapered_spectra` raises NFFT to N) reports `max(N, NFFT)/2 + 1` frequencies spaced `Fs / max(N, NFFT)`. -/
+
+theorem trueOneSided_length (Fs : ℚ) (N : ℕ) : (trueOneSided Fs N).length = nBins true N := by
+  simp [trueOneSided, nBins]
+
+theorem trueTwoSided_length (Fs : ℚ) (N : ℕ) : (trueTwoSided Fs N).length = nBins false N := by
+  simp [trueTwoSided, nBins]
+
+theorem periodogram_onesided_frequencies_length_eq_spectrum_length (pi Fs : ℚ) (e : LenEnv) :
+    (eval Grids.periodogram_onesided pi Fs (GridLens.periodogram.gridLen.eval e)).length
+      = nBins true (GridLens.periodogram.transform.len e) := by
+  rw [periodogram_onesided_is_true_grid_of_used_transform, trueOneSided_length]
+
+theorem periodogram_twosided_frequencies_length_eq_spectrum_length (pi Fs : ℚ) (e : LenEnv) :
+    (eval Grids.periodogram_twosided pi Fs (GridLens.periodogram.gridLen.eval e)).length
+      = nBins false (GridLens.periodogram.transform.len e) := by
+  rw [periodogram_twosided_is_true_grid_of_used_transform, trueTwoSided_length]
+
+theorem periodogram_csd_onesided_frequencies_length_eq_spectrum_length (pi Fs : ℚ) (e : LenEnv) :
+    (eval Grids.periodogram_csd_onesided pi Fs (GridLens.periodogram_csd.gridLen.eval e)).length
+      = nBins true (GridLens.periodogram_csd.transform.len e) := by
+  rw [periodogram_csd_onesided_is_true_grid_of_used_transform, trueOneSided_length]
+
+theorem periodogram_csd_twosided_frequencies_length_eq_spectrum_length (pi Fs : ℚ) (e : LenEnv) :
+    (eval Grids.periodogram_csd_twosided pi Fs (GridLens.periodogram_csd.gridLen.eval e)).length
+      = nBins false (GridLens.periodogram_csd.transform.len e) := by
+  rw [periodogram_csd_twosided_is_true_grid_of_used_transform, trueTwoSided_length]
+
+theorem multi_taper_psd_onesided_frequencies_length_eq_spectrum_length (pi Fs : ℚ) (e : LenEnv) :
+    (eval Grids.multi_taper_psd_onesided pi Fs (GridLens.multi_taper_psd.gridLen.eval e)).length
+      = nBins true (GridLens.multi_taper_psd.transform.len e) := by
+  rw [multi_taper_psd_onesided_is_true_grid_of_used_transform, trueOneSided_length]
+
+theorem multi_taper_psd_twosided_frequencies_length_eq_spectrum_length (pi Fs : ℚ) (e : LenEnv) :
+    (eval Grids.multi_taper_psd_twosided pi Fs (GridLens.multi_taper_psd.gridLen.eval e)).length
+      = nBins false (GridLens.multi_taper_psd.transform.len e) := by
+  rw [multi_taper_psd_twosided_is_true_grid_of_used_transform, trueTwoSided_length]
+
+theorem multi_taper_csd_onesided_frequencies_length_eq_spectrum_length (pi Fs : ℚ) (e : LenEnv) :
+    (eval Grids.multi_taper_csd_onesided pi Fs (GridLens.multi_taper_csd.gridLen.eval e)).length
+      = nBins true (GridLens.multi_taper_csd.transform.len e) := by
+  rw [multi_taper_csd_onesided_is_true_grid_of_used_transform, trueOneSided_length]
+
+theorem multi_taper_csd_twosided_frequencies_length_eq_spectrum_length (pi Fs : ℚ) (e : LenEnv) :
+    (eval Grids.multi_taper_csd_twosided pi Fs (GridLens.multi_taper_csd.gridLen.eval e)).length
+      = nBins false (GridLens.multi_taper_csd.transform.len e) := by
+  rw [multi_taper_csd_twosided_is_true_grid_of_used_transform, trueTwoSided_length]
+
+theorem get_spectra_periodogram_csd_onesided_frequencies_length_eq_spectrum_length (pi Fs : ℚ) (e : LenEnv) :
+    (eval Grids.get_spectra_periodogram_csd_onesided pi Fs (GridLens.periodogram_csd.gridLen.eval e)).length
+      = nBins true (GridLens.periodogram_csd.transform.len e) := by
+  rw [get_spectra_periodogram_csd_onesided_is_true_grid_of_used_transform, trueOneSided_length]
+
+theorem get_spectra_periodogram_csd_twosided_frequencies_length_eq_spectrum_length (pi Fs : ℚ) (e : LenEnv) :
+    (eval Grids.get_spectra_periodogram_csd_twosided pi Fs (GridLens.periodogram_csd.gridLen.eval e)).length
+      = nBins false (GridLens.periodogram_csd.transform.len e) := by
+  rw [get_spectra_periodogram_csd_twosided_is_true_grid_of_used_transform, trueTwoSided_length]
+
+theorem get_spectra_multi_taper_csd_onesided_frequencies_length_eq_spectrum_length (pi Fs : ℚ) (e : LenEnv) :
+    (eval Grids.get_spectra_multi_taper_csd_onesided pi Fs (GridLens.multi_taper_csd.gridLen.eval e)).length
+      = nBins true (GridLens.multi_taper_csd.transform.len e) := by
+  rw [get_spectra_multi_taper_csd_onesided_is_true_grid_of_used_transform, trueOneSided_length]
+
+theorem get_spectra_multi_taper_csd_twosided_frequencies_length_eq_spectrum_length (pi Fs : ℚ) (e : LenEnv) :
+    (eval Grids.get_spectra_multi_taper_csd_twosided pi Fs (GridLens.multi_taper_csd.gridLen.eval e)).length
+      = nBins false (GridLens.multi_taper_csd.transform.len e) := by
+  rw [get_spectra_multi_taper_csd_twosided_is_true_grid_of_used_transform, trueTwoSided_length]
+
+/-- multitaper through `get_spectra` with an `NFFT` entry `f`, `d` samples: `max(d, f)/2 + 1` frequencies, entry `k` at
+`k·Fs / max(d, f)` — never the `f/2 + 1` entries spaced `Fs/f` of an `f`-point grid when `f < d` -/
+theorem multi_taper_frequencies_of_requested_nfft (pi Fs : ℚ) (d f : ℕ) :
+    eval Grids.get_spectra_multi_taper_csd_onesided pi Fs (GridLens.multi_taper_csd.gridLen.eval ⟨d, some f, none⟩)
+      = trueOneSided Fs (max d f) ∧
+    GridLens.multi_taper_csd.transform.len ⟨d, some f, none⟩ = max d f := by
+  have h := (multi_taper_length d (some f) none).2
+  simp only [Option.getD_some] at h
+  refine ⟨?_, ?_⟩
+  · rw [get_spectra_multi_taper_csd_onesided_is_true_grid, h]
+  · rw [← multi_taper_csd_grid_length_is_transform_length, h]
+
+/-- the generated fact about today's `CoherenceAnalyzer`: `.frequencies` and `.spectrum` are components 0 and 1 of one and
+the same call `tsa.get_spectra(self.input.data, method=self.method)` (an edit that computes the vector any other way —
+a shortcut from `method['NFFT']` — re-opens this) -/
+theorem CoherenceAnalyzer_frequencies_and_spectrum_from_one_call : FreqSrc.CoherenceAnalyzer.oneCall = true := by decide
+
+/-- getters that are the two components of one delegating call report equally many frequencies and bins, whatever the
+estimator's `LenSite` and the options, provided the estimator itself builds its grid from its transform's length -/
+theorem oneCall_lengths_agree (p : FreqPair) (hp : p.oneCall = true) (ls : LenSite) (alt : LenExpr) (one : Bool) (e : LenEnv)
+    (hls : ls.gridLen.eval e = ls.transform.len e) :
+    (p.lengths ls alt one e).1 = (p.lengths ls alt one e).2 := by
+  rcases p with ⟨fr, sp, dl⟩
+  cases fr with
+  | other => simp [FreqPair.oneCall] at hp
+  | component c i =>
+    cases i with
+    | zero => simp [FreqPair.lengths, hls]
+    | succ i => cases sp <;> simp [FreqPair.oneCall] at hp
+
+/-- `CoherenceAnalyzer`, every estimator it can be given, every `NFFT` entry (smaller than, equal to, larger than the series):
+`.frequencies` has one entry per bin of `.spectrum` -/
+theorem CoherenceAnalyzer_frequencies_length_eq_spectrum_length (alt : LenExpr) (one : Bool) (d : ℕ) (f : Option ℕ) :
+    (FreqSrc.CoherenceAnalyzer.lengths GridLens.multi_taper_csd alt one ⟨d, f, none⟩).1
+      = (FreqSrc.CoherenceAnalyzer.lengths GridLens.multi_taper_csd alt one ⟨d, f, none⟩).2 ∧
+    (FreqSrc.CoherenceAnalyzer.lengths GridLens.periodogram_csd alt one ⟨d, f, none⟩).1
+      = (FreqSrc.CoherenceAnalyzer.lengths GridLens.periodogram_csd alt one ⟨d, f, none⟩).2 :=
+  ⟨oneCall_lengths_agree _ CoherenceAnalyzer_frequencies_and_spectrum_from_one_call _ _ _ _ (multi_taper_csd_grid_length_is_transform_length _),
+   oneCall_lengths_agree _ CoherenceAnalyzer_frequencies_and_spectrum_from_one_call _ _ _ _ (periodogram_csd_grid_length_is_transform_length _)⟩
+
+-- non-vacuity: 40 samples, multitaper asked for 32 points: 21 frequencies for 21 bins, spaced 1000/40 = 25 Hz
+example : (FreqSrc.CoherenceAnalyzer.lengths GridLens.multi_taper_csd (.ite .nfftTruthy .nfft .data) true ⟨40, some 32, none⟩) = (21, 21)
+    ∧ (eval Grids.get_spectra_multi_taper_csd_onesided 3 1000 (GridLens.multi_taper_csd.gridLen.eval ⟨40, some 32, none⟩))[1]? = some 25 := by
+  decide +kernel
+
+/-- contrast (the change class of seeded change C05-14): a frequency getter that builds its vector from `method['NFFT'] or n`
+instead of asking the estimator: 40 samples, multitaper with NFFT = 32 — 17 frequencies spaced 31.25 Hz for 21 bins spaced 25 Hz;
+with NFFT absent, equal or larger the shortcut agrees -/
+theorem frequencies_from_method_nfft_mislabel_multitaper :
+    let bad : FreqPair := ⟨.other, .component 0 1, true⟩
+    let alt : LenExpr := .ite .nfftTruthy .nfft .data
+    bad.lengths GridLens.multi_taper_csd alt true ⟨40, some 32, none⟩ = (17, 21) ∧
+    (trueOneSided 1000 32)[1]? = some (125 / 4) ∧ (trueOneSided 1000 40)[1]? = some 25 ∧
+    bad.lengths GridLens.multi_taper_csd alt true ⟨40, none, none⟩ = (21, 21) ∧
+    bad.lengths GridLens.multi_taper_csd alt true ⟨40, some 64, none⟩ = (33, 33) ∧
+    bad.lengths GridLens.periodogram_csd alt true ⟨40, some 32, none⟩ = (17, 17) := by
+  decide +kernel
+
 /-! ### band selection -/
 
 theorem trueOneSided_getElem (Fs : ℚ) (N k : ℕ) (hk : k < (trueOneSided Fs N).length) :
